@@ -22,9 +22,15 @@ CONFIGS = {
     # a document that is live, its origin's cut-off moved past it by later operations on both sources, then a late single
     # request for that document between its stamp and the cut-off (four single requests, stamps 0 / 1 / 4 / 5 with F = 2: the later two on the two sources)
     "K10": dict(Keys={1, 2}, Nodes={1}, Times={0, 1, 4, 5}, MaxReqs=4, WithBulk=False, WithCrash=False),
+    # six single requests: a delete, its origin's cut-off moved past it on both sources, a purge that storage refuses, the
+    # document written again, a second purge
+    "K11": dict(Keys={1, 2}, Nodes={1}, Times={0, 3, 4, 5}, MaxReqs=6, WithBulk=False, WithCrash=False),
+    # the same from a storage that already holds the tombstone (five requests: cut-off moved on both sources, a purge
+    # that storage refuses, the document written again, a second purge)
+    "K12": dict(Keys={1, 2}, Nodes={1}, Times={0, 3, 4, 5}, MaxReqs=5, WithBulk=False, WithCrash=False, InitTombs={1}),
     "K7": dict(Keys={1, 2}, Nodes={1}, Times={0, 3, 4}, MaxReqs=5, WithBulk=False, WithCrash=False),
 }
-TIERS = {"quick": ["K1", "K3", "K5", "K7", "K8", "K9", "K10"], "thorough": ["K1", "K2", "K3", "K4", "K5", "K6", "K7", "K8", "K9", "K10"]}
+TIERS = {"quick": ["K1", "K3", "K5", "K7", "K8", "K9", "K10", "K12"], "thorough": ["K1", "K2", "K3", "K4", "K5", "K6", "K7", "K8", "K9", "K10", "K11", "K12"]}
 INVARIANTS = ["C02_Agree", "C07_AckedVisible", "WellFormedInv"]
 PROPERTIES = ["C07_RebuildExact"]
 
